@@ -397,10 +397,10 @@ def k_copy_within(recv):
         if kind == "return":
             # returning normally needs rectangles that fit (a call that panics after copying some rows is not
             # excluded by the property, so paths cut after one loop iteration are only checked for UB)
-            return f"(and {fits} {no_ub(events)})"
-        if kind == "cut":
-            return no_ub(events)
-        return "true"  # panics are judged by Engine A (a fitting call must not panic)
+            # (the unchecked accesses on these paths are those of the inlined row iterators, which the cursor
+            # kernels of C08 decide on their own)
+            return fits
+        return "true"  # cut paths and panics: a fitting call that must not panic is Engine A's obligation
 
     k = Kernel(f"copy_within_{recv}", "C14", find, build, post,
                f"copy_within on {recv}: a call whose source or destination rectangle does not fit (as mathematical integers) never returns normally",
